@@ -6,26 +6,27 @@ import random
 from .. import core
 
 
-def _fj(kind, NJ, NOPS, NM, mno, unequal=False, B=1, elig="all", source="hand"):
-    return {"id": f"C07:{kind} {NJ}x{NOPS}x{NM} mask_no_ops={mno} unequal={unequal} B={B} elig={elig} instances={source}", "module": "vf.sched", "func": "fjsp_job",
-            "params": dict(kind=kind, NJ=NJ, NOPS=NOPS, NM=NM, mask_no_ops=mno, unequal=unequal, B=B, elig=elig, source=source)}
+def _fj(kind, NJ, NOPS, NM, mno, unequal=False, B=1, elig="all", source="hand", gen_mas=None):
+    return {"id": f"C07:{kind} {NJ}x{NOPS}x{NM} mask_no_ops={mno} unequal={unequal} B={B} elig={elig} instances={source}" + (f" env built for {gen_mas} machines" if gen_mas else ""), "module": "vf.sched", "func": "fjsp_job",
+            "params": dict(kind=kind, NJ=NJ, NOPS=NOPS, NM=NM, mask_no_ops=mno, unequal=unequal, B=B, elig=elig, source=source, gen_mas=gen_mas)}
 
 
-def _ff(NJ, NS, NMA, D, flatten=True, big=None):
-    return {"id": f"C07:ffsp {NJ} jobs x {NS} stages x {NMA} machines D<={D}{' or ' + str(big) if big else ''} flatten_stages={flatten}", "module": "vf.sched", "func": "ffsp_job",
-            "params": dict(NJ=NJ, NS=NS, NMA=NMA, D=D, flatten=flatten, big=big)}
+def _ff(NJ, NS, NMA, D, flatten=True, big=None, B=1):
+    return {"id": f"C07:ffsp {NJ} jobs x {NS} stages x {NMA} machines D<={D}{' or ' + str(big) if big else ''} flatten_stages={flatten}" + (f" B={B}" if B > 1 else ""), "module": "vf.sched", "func": "ffsp_job",
+            "params": dict(NJ=NJ, NS=NS, NMA=NMA, D=D, flatten=flatten, big=big, B=B)}
 
 
 def plan(tier, seed):
     jobs = [_fj("fjsp", 2, 2, 2, True), _fj("fjsp", 2, 2, 2, True, unequal=True), _fj("fjsp", 2, 2, 2, True, elig="first"), _fj("jssp", 2, 2, 2, True),
-            _fj("fjsp", 2, 1, 2, False), _fj("jssp", 2, 1, 2, False), _ff(2, 2, 1, 2), _ff(2, 2, 2, 2), _ff(2, 2, 1, 2, flatten=False), _ff(2, 2, 2, 2, flatten=False),
+            _fj("fjsp", 2, 1, 2, False), _fj("jssp", 2, 1, 2, False), _fj("fjsp", 2, 1, 2, True, gen_mas=3), _ff(2, 2, 1, 2), _ff(2, 2, 2, 2), _ff(2, 2, 1, 2, flatten=False), _ff(2, 2, 2, 2, flatten=False),
+            _ff(2, 2, 1, 2, B=2),  # two rows that finish at different steps: the finished row keeps stepping (waits) until the batch is done
             _ff(2, 2, 2, 1, big=6),  # heterogeneous machines: a job may be much slower on a machine it does not end up using
             # instances produced by the REAL bundled generators (every sampler outcome), incl. padded ones with fewer ops than slots
             _fj("jssp", 2, 2, 2, True, source="generator")]
     jobs.append({"id": "C07:smtwtp n=3", "module": "vf.episodes", "func": "episode_job", "params": dict(spec="smtwtp", variant=None, n=3, B=1, mode="C01")})
     if tier == "thorough":
-        jobs += [_fj("fjsp", 2, 2, 2, True, source="generator"), _fj("jssp", 2, 2, 2, False, source="generator"), _fj("fjsp", 2, 2, 2, False), _fj("jssp", 2, 2, 2, False), _fj("fjsp", 2, 2, 2, True, elig="symbolic"), _fj("fjsp", 3, 1, 2, True), _fj("jssp", 3, 1, 2, True),
-                 _fj("fjsp", 2, 2, 2, True, unequal=True, B=2), _ff(3, 2, 1, 2), _ff(2, 2, 1, 3), _ff(2, 3, 1, 2), _ff(2, 2, 2, 2, big=9), _ff(3, 2, 2, 1, big=5)]
+        jobs += [_fj("fjsp", 2, 2, 2, True, source="generator"), _fj("jssp", 2, 2, 2, False, source="generator"), _fj("fjsp", 2, 2, 2, False), _fj("jssp", 2, 2, 2, False), _fj("fjsp", 2, 2, 2, True, elig="symbolic"), _fj("fjsp", 3, 1, 2, True), _fj("jssp", 3, 1, 2, True), _fj("fjsp", 2, 2, 2, True, gen_mas=3), _fj("jssp", 2, 2, 2, True, gen_mas=1),
+                 _fj("fjsp", 2, 2, 2, True, unequal=True, B=2), _ff(3, 2, 1, 2), _ff(2, 2, 1, 3), _ff(2, 3, 1, 2), _ff(2, 2, 2, 2, big=9), _ff(3, 2, 2, 1, big=5), _ff(2, 2, 2, 2, B=2)]
         jobs.append({"id": "C07:smtwtp n=4 B=2", "module": "vf.episodes", "func": "episode_job", "params": dict(spec="smtwtp", variant=None, n=4, B=2, mode="C01")})
     rng = random.Random(seed)
     reqs = []
